@@ -285,6 +285,16 @@ def b_builder(name):
     return b
 
 
+def b_bace(a):
+    """Bayesian agglomerative coarse-graining on dense float64 symmetrised counts with heavy self-counts"""
+    from enspara.msm import bace as bace_mod
+    r = rs(a["seed"])
+    n = a["n"] + 2
+    C = r.randint(1, 30, size=(n, n)).astype(np.float64)
+    C = C + C.T + np.diag(r.randint(200, 400, size=n).astype(np.float64))
+    return (lambda: bace_mod.bace(C, 2 + a["seed"] % 2, n_procs=1)), [C]
+
+
 def b_trim(a):
     C = wrap(count_matrix(a, connected=False), a["container"])
     return (lambda: tm.trim_disconnected(C, threshold=a["threshold"], renumber_states=a["renumber"])), [C]
@@ -297,7 +307,10 @@ def tprob(a):
 
 def b_eigenspectrum(a):
     T = wrap(tprob(a), a["container"])
-    return (lambda: tm.eigenspectrum(T, n_eigs=a["n_eigs"])), [T]
+    left = a["seed"] % 5 != 0                 # one call in five asks for the right eigenvectors
+    if a["container"] == "dense" and a["seed"] % 3 == 0:
+        T = np.asfortranarray(T)              # e.g. the transpose view of a row-major matrix
+    return (lambda: tm.eigenspectrum(T, n_eigs=a["n_eigs"], left=left)), [T]
 
 
 def b_eq_probs(a):
@@ -658,6 +671,7 @@ ROUTINES = {
     "channel_capacity_normalization": (feat_args(), b_ccn),
     "mi_to_apc": (feat_args(), b_nmi_apc),
     "builders.normalize": (counts_args(), b_builder("normalize")),
+    "bace": (counts_args(), b_bace),
     "builders.transpose": (counts_args(), b_builder("transpose")),
     "builders.mle": (counts_args(max_n=5), b_builder("mle")),
     "trim_disconnected": (counts_args(), b_trim),
@@ -706,6 +720,7 @@ ROUTINES = {
     "transitions": (angle_args(), b_transitions),
     "assigns_to_counts": (assigns_args(), b_counts),
 }
+GLOBAL_RNG_USERS = set()      # routines of the registry documented to draw from the global generator (none: all are seeded)
 LONG = ["joint_counts_long", "joint_counts_self_long", "libdist.euclidean_long", "libdist.hamming_long"]
 THREADED = {"libdist.euclidean_wide", "libdist.manhattan_wide", "libdist.hamming_wide", "joint_counts_long", "joint_counts_self_long", "libdist.euclidean_long", "libdist.hamming_long", "joint_counts", "joint_counts_self", "mi_matrix", "libdist.euclidean", "libdist.manhattan", "libdist.hamming",
             "assign_to_nearest_center", "kcenters", "kmedoids", "hybrid", "builders.mle"}
@@ -745,8 +760,15 @@ def run_case(case):
 
     thunk, ins = build(args)
     before = snapshot(ins)
+    g0 = np.random.get_state()
     base = outcome(thunk)
+    g1 = np.random.get_state()
     require(snapshot(ins) == before, "routine %s modified an array passed to it" % name, args=args)
+    # numpy's global generator is process state other computations draw from: a routine that is given its own seed (or
+    # needs no randomness) leaves it alone - re-seeding it changes what every later unseeded computation returns
+    if name not in GLOBAL_RNG_USERS:
+        require(g0[0] == g1[0] and np.array_equal(g0[1], g1[1]) and g0[2:] == g1[2:],
+                "routine %s changed the state of numpy's global random generator" % name, args=args)
     # (a) repetition on the same objects and on freshly built arguments
     again = outcome(thunk)
     require(again == base, "repeating %s on the same arguments changed the result" % name, first=describe(base),
